@@ -8,7 +8,14 @@ import (
 
 type R struct{ s uint64 }
 
-func New(seed uint64) *R { return &R{s: seed*0x9E3779B97F4A7C15 + 0x1234567} }
+// New scrambles the seed with the SplitMix64 finaliser first: with the plain state s0 = seed*γ the
+// streams of seed and seed+1 would be one-step shifts of each other (the state advances by γ).
+func New(seed uint64) *R {
+	z := seed + 0x632BE59BD9B4E019
+	z = (z ^ (z >> 30)) * 0xBF58476D1CE4E5B9
+	z = (z ^ (z >> 27)) * 0x94D049BB133111EB
+	return &R{s: z ^ (z >> 31)}
+}
 
 // FromEnv seeds from VERIF_SEED (default 1) mixed with a per-stream salt.
 func FromEnv(salt uint64) *R {
